@@ -39,7 +39,7 @@ var c10Hostile = []string{
 type c10Plan struct{ nCorpus, nHostile, nNest, nLong, nRand, nProbe int }
 
 func c10PlanFor(tier string) c10Plan {
-	return c10Plan{nCorpus: len(c10Corpus), nHostile: len(c10Hostile), nNest: 60, nLong: 8, nRand: tierN(tier, 40000, 2500000), nProbe: 4}
+	return c10Plan{nCorpus: len(c10Corpus), nHostile: len(c10Hostile), nNest: 60, nLong: 8, nRand: tierN(tier, 40000, 1000000), nProbe: 4}
 }
 
 var c10Benign = []interface{}{
